@@ -74,10 +74,12 @@ def peer_strategy(dll=None, roles=("orig", "resp"), modes=("rts", "rts", "bam"),
         p["peer"] = peer
         # C09: further broadcast sessions of the same stack running at the same time (J1939-22 allows four per originator);
         # each is paced on its own, whatever the others do
-        if intervals and fd and mode == "bam" and role in ("orig", "s2s"):
+        # (J1939-21 has one broadcast session per source address: there the companions come from further CAs of the stack)
+        if intervals and mode == "bam" and role in ("orig", "s2s"):
             p["companions"] = draw(st.lists(st.fixed_dictionaries({
-                "n": st.sampled_from([61, 121, 181, 250, 400, 700]), "dt_ms": st.sampled_from([0, 0, 1, 3, 7, 10, 25]),
-                "first": st.booleans()}), max_size=3))
+                "n": st.sampled_from([61, 121, 181, 250, 400, 700] if fd else [9, 15, 22, 36, 50, 100]),
+                "dt_ms": st.sampled_from([0, 0, 1, 3, 7, 10, 25]),
+                "first": st.booleans()}), max_size=3 if fd else 2))
             p["tx_time"] = draw(st.sampled_from([0.0, 0.0001, 0.0005, 0.002])) if p["companions"] else p["tx_time"]
         return p
     return build()
@@ -136,15 +138,24 @@ def run(p):
                 except Exception as e:  # noqa
                     res["r"] = "EXC:%s:%s" % (type(e).__name__, str(e)[:100])
             comp = p.get("companions") or []
+            comp_ca = []
+            for ci_, c_ in enumerate(comp):
+                if fd:
+                    comp_ca.append(s.cas["s"])
+                else:
+                    free = [a for a in (0x31, 0x32, 0x33, 0x34) if a not in (SA_S, SA_P)]
+                    comp_ca.append(s.add_ca("s%d" % (ci_ + 2), 0x110 + ci_, free[ci_]))
+
+            def companion(ci_, c_):
+                return lambda: comp_ca[ci_].send_pgn(0, 0xFF, 0x10 + ci_, 6, list(W.make_payload(
+                    {"n": c_["n"], "cls": "arith", "a": 11 + ci_, "b": 3})))
             for ci_, c_ in enumerate(comp):
                 if c_["first"] and c_["dt_ms"] == 0:
-                    w.at(0.05, (lambda ci_=ci_, c_=c_: s.cas["s"].send_pgn(0, 0xFF, 0x10 + ci_, 6, list(W.make_payload(
-                        {"n": c_["n"], "cls": "arith", "a": 11 + ci_, "b": 3})))))
+                    w.at(0.05, companion(ci_, c_))
             w.at(0.05, submit)
             for ci_, c_ in enumerate(comp):
                 if not (c_["first"] and c_["dt_ms"] == 0):
-                    w.at(0.05 + c_["dt_ms"] / 1000.0, (lambda ci_=ci_, c_=c_: s.cas["s"].send_pgn(0, 0xFF, 0x10 + ci_, 6, list(
-                        W.make_payload({"n": c_["n"], "cls": "arith", "a": 11 + ci_, "b": 3})))))
+                    w.at(0.05 + c_["dt_ms"] / 1000.0, companion(ci_, c_))
             if p["mode"] == "rts":
                 per = max(peer_cfg["reply_lat"]) + 2 * maxlat + (p["rts_dt"] or 0) + 0.003 + 2 * p.get("tx_time", 0.0)
                 holds = max(peer_cfg["holds"]) * peer_cfg["hold_gap"]
@@ -154,7 +165,7 @@ def run(p):
                     horizon = min(horizon, 0.05 + n * per + min(n, 200) * holds + 2.0)
             else:
                 interval = p["bam_dt"] if p["bam_dt"] is not None else (0.01 if fd else 0.05)
-                nmax = max([n] + [-(-c_["n"] // 60) for c_ in comp])
+                nmax = max([n] + [-(-c_["n"] // (60 if fd else 7)) for c_ in comp])
                 horizon = 0.05 + (nmax + 2) * (interval + 0.003 + p.get("tx_time", 0.0) * (1 + len(comp))) + 1.0 + 0.03
         else:
             if p["mode"] == "rts":
